@@ -759,7 +759,29 @@ func main() {
 	}
 	loads, writes = loadsSaved, writesSaved
 	primitiveMode = false
-	sk.WriteString("Definition gen_append_prim : list (list tok) := [\n" + strings.Join(q2, ";\n") + "].\n")
+	sk.WriteString("Definition gen_append_prim : list (list tok) := [\n" + strings.Join(q2, ";\n") + "].\n\n")
+	// withLock itself: which file-system operations it performs besides open + flock
+	memo = map[string][][]eff{}
+	leavesSaved := leaves
+	leaves = map[string]bool{"ensureFileExists": true}
+	q3 := []string{}
+	if fd := funcDecls["withLock"]; fd != nil {
+		seen := map[string]bool{}
+		for _, p := range blockPaths(fd.Body.List) {
+			for _, f := range flatten(p) {
+				t := coqList(f)
+				if !seen[t] {
+					seen[t] = true
+					q3 = append(q3, "    "+t)
+				}
+			}
+		}
+	} else {
+		die("withLock not found")
+	}
+	leaves = leavesSaved
+	memo = map[string][][]eff{}
+	sk.WriteString("Definition gen_withlock_prim : list (list tok) := [\n" + strings.Join(q3, ";\n") + "].\n")
 	if err := os.MkdirAll(outDir, 0755); err != nil {
 		die("%v", err)
 	}
